@@ -75,7 +75,7 @@ func c14Scenario(name string, clients []gridClient, withECH bool) *explore.Scena
 			nameToVerify := []string{"", "*", "a.example", "nomatch.example"}[x.Choose("nametoverify", 4)]
 			skipTime := x.Choose("skiptime", 2) == 1
 			skipVerify := x.Choose("skipverify", 2) == 1
-			resumeMode := x.Choose("resumed", 3) // 0 fresh, 1 after an unverified first connection, 2 after a first connection verified under lenient knobs
+			resumeMode := x.Choose("resumed", 4) // 0 fresh, 1 after an unverified first connection, 2 after a first connection verified under lenient knobs, 3 after a first connection under the very same knobs
 			resumed := resumeMode != 0
 			h0, err := g.probeHello()
 			if err != nil {
@@ -124,7 +124,9 @@ func c14Scenario(name string, clients []gridClient, withECH bool) *explore.Scena
 				// with the knobs under test, must not inherit that trust
 				cache := tls.NewLRUClientSessionCache(8)
 				first := mkClient()
-				if resumeMode == 1 {
+				if resumeMode == 3 {
+					// same knobs: nothing to relax
+				} else if resumeMode == 1 {
 					first.InsecureSkipVerify = true
 				} else {
 					first.InsecureSkipVerify = false
@@ -138,6 +140,20 @@ func c14Scenario(name string, clients []gridClient, withECH bool) *explore.Scena
 					return
 				}
 				ccfg.ClientSessionCache = cache
+			}
+			// what this client does with a cached session when nothing is unusual about verification
+			// (matching name, valid certificate, no knobs): the yardstick for resumeMode 3
+			baselineResumes := false
+			if resumeMode == 3 && !withECH {
+				bc := g.config("example.com")
+				bc.ClientSessionCache = tls.NewLRUClientSessionCache(8)
+				bs := peer.ServerConfig(certs[0].cert())
+				bs.MaxVersion = vers
+				if b1 := peer.Run(bc, g.ID, bs, peer.Opts{Prepare: g.prepare(), Echo: true}); b1.OK() {
+					if b2 := peer.Run(bc, g.ID, bs, peer.Opts{Prepare: g.prepare(), Echo: true}); b2.OK() {
+						baselineResumes = b2.U.ConnectionState().DidResume
+					}
+				}
 			}
 			hs := peer.Run(ccfg, g.ID, scfg, peer.Opts{Prepare: g.prepare(), Echo: true})
 			if hs.CPanic != "" {
@@ -153,6 +169,9 @@ func c14Scenario(name string, clients []gridClient, withECH bool) *explore.Scena
 			didResume := got && hs.U.ConnectionState().DidResume
 			if didResume {
 				r.Count("resumed_connections", 1)
+			}
+			if resumeMode == 3 && got && want && baselineResumes && !didResume && !skipVerify {
+				r.Violate(fmt.Sprintf("C14|verified-session-not-resumed|nametoverify=%q|servername=%s", nameToVerify, serverName), "%s: both connections verify and succeed under these knobs, and this client resumes in the plain configuration, yet the second connection offered no session", what)
 			}
 			if got != want {
 				kind := "accepted-but-must-fail"
@@ -317,7 +336,7 @@ func c14Scenarios(thorough bool) []*explore.Scenario {
 func init() {
 	register(&Prop{ID: "C14", Level: "exploration", Variant: "A", Scenarios: c14Scenarios,
 		Run: func(c *explore.Check, thorough bool) {
-			c.Rule = "full product of {4 (6) clients} x version {1.3,1.2} x certificate {valid, wrong name, untrusted root, expired, not yet valid} x ServerName {matching, other, IP literal no leaf covers} x InsecureServerNameToVerify {'', '*', matching, other} x InsecureSkipTimeVerify x InsecureSkipVerify x {fresh, resumed from a session cached by an unverified / a leniently verified first connection}, and the same product at TLS 1.3 with ECH offered and accepted (4 ECH-capable clients): success must equal a reference predicate and failures must be CertificateVerificationError; ECH: 4 clients x {accepted, rejected with / without retry configs, rejected after a HelloRetryRequest} x public-name certificate {good, untrusted, secret-name only} x name check on/off. distinct = configuration"
+			c.Rule = "full product of {4 (6) clients} x version {1.3,1.2} x certificate {valid, wrong name, untrusted root, expired, not yet valid} x ServerName {matching, other, IP literal no leaf covers} x InsecureServerNameToVerify {'', '*', matching, other} x InsecureSkipTimeVerify x InsecureSkipVerify x {fresh, resumed from a session cached by an unverified / a leniently verified / an identically configured first connection (the last must resume whenever the client resumes at all)}, and the same product at TLS 1.3 with ECH offered and accepted (4 ECH-capable clients): success must equal a reference predicate and failures must be CertificateVerificationError; ECH: 4 clients x {accepted, rejected with / without retry configs, rejected after a HelloRetryRequest} x public-name certificate {good, untrusted, secret-name only} x name check on/off. distinct = configuration"
 			c.Assumptions = []string{"reference predicate written from the Config field documentation", "fixture PKI with a fixed clock"}
 			runAll(c, c14Scenarios(thorough), 0)
 			c.Gate(c.Total.Counters["resumed_connections"] > 20, "non-vacuity: %d resumed connections", c.Total.Counters["resumed_connections"])
